@@ -34,6 +34,8 @@ KNOWN = os.path.join(VERIF, "known_findings.json")
 CRATE_ARGS = {
     "parquet": ["--no-default-features", "--features", "arrow"],
     "arrow-avro": ["--no-default-features"],
+    # default feature simdutf8 = SIMD intrinsics; without it string_from_slice uses core::str::from_utf8
+    "parquet-variant": ["--no-default-features"],
 }
 MEM_CAP_GB = float(os.environ.get("VERIF_MEM_GB", "12"))
 TOTAL_MEM_CAP_GB = float(os.environ.get("VERIF_TOTAL_MEM_GB", "48"))
